@@ -409,7 +409,7 @@ fn case(rng: &mut Rng, ctx: &mut Ctx, forced: Option<(&str, Vec<u8>)>) {
                     ctx.violation("clean-end-on-bad-input", format!("stream ended cleanly although: {}{}", exp.why,
                         if injected.is_some() { " [body error injected]" } else { "" }));
                 }
-                if !must_fail && yielded.len() != cmp_msgs.len() && !cancel_exception {
+                if !must_fail && body_judged && yielded.len() != cmp_msgs.len() && !cancel_exception {
                     ctx.violation("lost-messages", format!("clean end after {} of {} messages", yielded.len(), cmp_msgs.len()));
                 }
             } else {
